@@ -128,7 +128,10 @@ func (x *Exec) native(name string, fn *ssa.Function, args []Value) (Value, bool)
 	case "strconv.Itoa":
 		return strOf(strconv.Itoa(int(sext(args[0].(*Term).c, 64)))), true
 	case "strconv.Quote":
-		return strOf(strconv.Quote(mustStr(args[0]))), true
+		if c, ok := args[0].(*Str).concrete(); ok {
+			return strOf(strconv.Quote(c)), true
+		}
+		return nil, false // symbolic text: execute the real strconv code
 	case "strconv.FormatFloat":
 		t := args[0].(*Term)
 		if !t.isC {
